@@ -184,15 +184,24 @@ class FnTir:
         if not (isinstance(s, dict) and s.get("k") == "stmt_let" and isinstance(s.get("init"), dict) and s.get("els") is None):
             return None
         pat = s["pat"]
-        if pat.get("k") != "tuple" or not all(x.get("k") in ("bind", "wild") and not x.get("mut") for x in pat["subs"]):
+        single = pat.get("k") == "bind" and not pat.get("mut")
+        if not single and (pat.get("k") != "tuple" or not all(x.get("k") in ("bind", "wild") and not x.get("mut") for x in pat["subs"])):
             return None
         init = H.peel_ref(H.peel(s["init"]))
-        n = len(pat["subs"])
+        n = 1 if single else len(pat["subs"])
+        subs = [pat] if single else pat["subs"]
+
+        def is_opt(x):
+            return isinstance(x, dict) and ((x.get("k") == "path" and x.get("def") == "core::option::Option::None") or
+                                            (x.get("k") == "call" and x.get("callee") == "core::option::Option::Some"))
 
         def tup(x):
             x = H.peel_ref(H.peel(x))
             while isinstance(x, dict) and x.get("k") == "block" and not x.get("stmts") and x.get("expr") is not None:
                 x = H.peel_ref(H.peel(x["expr"]))
+            if single:
+                # `let prefix = match .. { A => Some("KW "), B => None };` - an Option chosen per arm
+                return {"k": "tuple", "es": [x]} if is_opt(x) else None
             return x if isinstance(x, dict) and x.get("k") == "tuple" and len(x.get("es") or []) == n else None
         arms = []
         if init.get("k") == "match" and init.get("src") == "Normal":
@@ -215,7 +224,7 @@ class FnTir:
             return None
         if len(arms) < 2:
             return None
-        return [(g, [(p["name"], x) for p, x in zip(pat["subs"], t_["es"]) if p.get("k") == "bind"]) for g, t_ in arms]
+        return [(g, [(p["name"], x) for p, x in zip(subs, t_["es"]) if p.get("k") == "bind"]) for g, t_ in arms]
 
     # ---- effects -------------------------------------------------------------------------------
     def W(self, e):
@@ -648,6 +657,24 @@ class FnTir:
                 return ("hole", "FMT_SAFE", {"what": text(e), "callee": H.callee(e)}, e.get("sp"))
             # a function that returns text
             rt = strip_ref(self.ty(e))
+            if (is_stringy(rt)) and depth < 6 and getattr(self, "_vinl", 0) < 2:
+                # a private helper of the crate that only computes text (no writer parameter): its text is the text of its body
+                for d_ in (H.callee(e), callee):
+                    cf = self.f.fns.get(d_ or "")
+                    if cf is not None and cf.get("hir") is not None and (d_ or "").startswith("crate::") and d_ != self.name and \
+                            not (cf.get("owner") or {}).get("trait") and "::tests" not in d_:
+                        try:
+                            ct = fn_tir(self.f, d_)
+                            if ct.sinks and any(k_ == "writer" for k_ in ct.sinks.values()):
+                                break
+                            ct._vinl = getattr(self, "_vinl", 0) + 1
+                            r = ct.S(ct.body, depth + 1)
+                        except Exception:
+                            break
+                        bad = [a for a in atoms(r) if a[0] in ("callv", "buf") or (a[0] == "hole" and a[1] in ("UNKNOWN", "DISPLAY"))]
+                        if not bad:
+                            return r
+                        break
             if is_stringy(rt) or rt == "char":
                 return ("callv", callee, {"resolved": e.get("resolved"), "recv": text(recv) if recv is not None else None,
                                           "recv_ty": self.f.ty(e.get("recv_ty")) if e.get("recv_ty") is not None else None,
